@@ -19,6 +19,7 @@ type c08Case struct {
 	SubKeys []string        `json:"subkeys,omitempty"`
 	Sep     string          `json:"field_sep,omitempty"`
 	Pol     int             `json:"order_policy"`
+	Dag     string          `json:"map_with_shared_containers,omitempty"` // the Map is built by dagMaps()[Dag]: one map or list object reachable at several places ("map" shows it unfolded)
 }
 
 func init() {
@@ -26,6 +27,11 @@ func init() {
 		var k c08Case
 		json.Unmarshal(cas, &k)
 		m := retype(fromJSON(string(k.Map))).(map[string]interface{})
+		if k.Dag != "" {
+			m = dagMaps()[k.Dag]()
+			curDag = k.Dag
+			defer func() { curDag = "" }()
+		}
 		resetOptions()
 		if k.Sep != "" {
 			mxj.SetFieldSeparator(k.Sep)
@@ -240,7 +246,7 @@ func keyBelowLIL(n interface{}, k string, inLIL bool) bool {
 func c08Key(c *Ctx, m map[string]interface{}, key string, choices []int) (nontrivial bool) {
 	mv := mxj.Map(m)
 	cas := func() interface{} {
-		return c08Case{Map: json.RawMessage(jsonOf(m)), Key: key, Pol: rt.OrderPolicy}
+		return c08Case{Dag: curDag, Map: json.RawMessage(jsonOf(m)), Key: key, Pol: rt.OrderPolicy}
 	}
 	shape := c08Shape(m, key)
 	var exp []interface{}
@@ -380,7 +386,7 @@ func filterExpect(unfiltered []interface{}, conds []cond) [][]string {
 func c08KeyFilter(c *Ctx, m map[string]interface{}, key string, specs []string, sep string, choices []int) (nontrivial bool) {
 	mv := mxj.Map(m)
 	cas := func() interface{} {
-		return c08Case{Map: json.RawMessage(jsonOf(m)), Key: key, SubKeys: specs, Sep: sep, Pol: rt.OrderPolicy}
+		return c08Case{Dag: curDag, Map: json.RawMessage(jsonOf(m)), Key: key, SubKeys: specs, Sep: sep, Pol: rt.OrderPolicy}
 	}
 	var conds []cond
 	for _, s := range specs {
@@ -453,7 +459,7 @@ func c08FilterShape(conds []cond) string {
 func c08PathFilter(c *Ctx, m map[string]interface{}, path string, specs []string, sep string, choices []int) (nontrivial bool) {
 	mv := mxj.Map(m)
 	cas := func() interface{} {
-		return c08Case{Map: json.RawMessage(jsonOf(m)), Path: path, SubKeys: specs, Sep: sep, Pol: rt.OrderPolicy}
+		return c08Case{Dag: curDag, Map: json.RawMessage(jsonOf(m)), Path: path, SubKeys: specs, Sep: sep, Pol: rt.OrderPolicy}
 	}
 	var conds []cond
 	for _, s := range specs {
@@ -503,7 +509,7 @@ func c08PathFilter(c *Ctx, m map[string]interface{}, path string, specs []string
 
 func c08Run(c *Ctx) {
 	mustBeDefault(c)
-	c.S.Rule = "part 1 (search): every Map template with <= N nodes over keys {a,bbbb,k} plus the sibling family {a:[M1,M2]} (Mi every map template with <= 4 nodes over {a,k}) (lists, list-in-list, empty containers, unique leaves) x keys {a,b,k,z,*}: ValuesForKey/ValueForKey vs reference, PathsForKey as a set, PathForKeyShortest minimal, and values-through-paths = ValuesForKey. part 2 (filters): every Map template with <= M nodes over keys {a,k} with typed leaves {\"s\",1,true} x key/path x every set of 1..2 sub-key conditions over {a (maybe present), z (absent)} x {matching, non-matching, *} x {untyped, :string, :bool, :num} x {plain, negated}, under field separators ':', '|', the two-byte character U+00A6 and the two-character '::' (plus sub-key texts that are well formed under both separators with different meanings, used under one separator after the other, back and forth; number-typed conditions in 22 spellings x 5 type names x plain/negated): filtered result = maps of the unfiltered result satisfying the reference predicate. Each case runs under ascending and descending map order; cases that range over >= 2 keys are also explored under every single order deviation (E-choice bound 1). Result slices are retained (last 16) and re-checked after every later call. non-trivial = key present (part 1) / filter keeps a proper non-empty subset (part 2)."
+	c.S.Rule = "part 1 (search): every Map template with <= N nodes over keys {a,bbbb,k} plus the sibling family {a:[M1,M2]} (Mi every map template with <= 4 nodes over {a,k}) (lists, list-in-list, empty containers, unique leaves) x keys {a,b,k,z,*}: ValuesForKey/ValueForKey vs reference, PathsForKey as a set, PathForKeyShortest minimal, and values-through-paths = ValuesForKey. part 2 (filters): every Map template with <= M nodes over keys {a,k} with typed leaves {\"s\",1,true} x key/path x every set of 1..2 sub-key conditions over {a (maybe present), z (absent)} x {matching, non-matching, *} x {untyped, :string, :bool, :num} x {plain, negated}, under field separators ':', '|', the two-byte character U+00A6 and the two-character '::' (plus sub-key texts that are well formed under both separators with different meanings, used under one separator after the other, back and forth; number-typed conditions in 22 spellings x 5 type names x plain/negated): filtered result = maps of the unfiltered result satisfying the reference predicate. Each case runs under ascending and descending map order; cases that range over >= 2 keys are also explored under every single order deviation (E-choice bound 1). Result slices are retained (last 16) and re-checked after every later call. non-trivial = key present (part 1) / filter keeps a proper non-empty subset (part 2). Plus 8 Maps with shared containers (one map or list object reachable at several places: a value in the shared part counts once per path that reaches it) x keys {k,a,ab,*,z} x 5 sub-key sets."
 	c.S.Assumptions = []string{"reference search/filter semantics in harness/c08.go written from the documentation"}
 	n1, n2, ech := 6, 5, 5
 	if c.Thorough {
@@ -617,6 +623,29 @@ func c08Run(c *Ctx) {
 				c08Key(c, map[string]interface{}{"m": wm, "l": wl}, key, ch)
 			})
 		}
+	}
+	// Maps with shared containers (one map or list object reachable at several places)
+	for _, name := range dagNames() {
+		mk := dagMaps()[name]
+		curDag = name
+		for _, key := range []string{"k", "a", "ab", "*", "z"} {
+			if !c.Mine() {
+				continue
+			}
+			c.S.States++
+			c.S.Evaluations++
+			explore(8, func(ch []int) { c08Key(c, mk(), key, ch) })
+			for _, set := range [][]string{{"a:*"}, {"!a:*"}, {"a:s"}, {"k:v1"}, {"!k:v1"}} {
+				for _, pol := range []int{rt.PolicySorted, rt.PolicyReverse} {
+					rt.OrderPolicy = pol
+					c08KeyFilter(c, mk(), key, set, "", nil)
+					c08PathFilter(c, mk(), "*.*."+key, set, "", nil)
+					c.S.Schedules += 2
+				}
+				rt.OrderPolicy = rt.PolicySorted
+			}
+		}
+		curDag = ""
 	}
 	// part 2
 	var specsFor = func(sep string) [][]string {
